@@ -424,7 +424,12 @@ class SumAggregator:
                     if blit.ast_type == ASTType.Literal:
                         atom = blit.atom
                         # not #sum+, the telescoping differences only add up if negative weights count as well
-                        if atom.ast_type == ASTType.BodyAggregate and atom.function == AggregateFunction.Sum:
+                        if (
+                            atom.ast_type == ASTType.BodyAggregate
+                            and atom.function == AggregateFunction.Sum
+                            # the replacement uses this variable as a local one, it may not meet a global one
+                            and PREV.name not in (var.name for var in collect_ast(stm, "Variable"))
+                        ):
                             outer_vars = collect_binding_information_body([x for x in stm.body if x != blit])[0]
                             newatom = atom.update(elements=self._replace_elements(atom.elements, ret, outer_vars))
                             newbody.append(blit.update(atom=newatom))
